@@ -301,6 +301,16 @@ def unpacked(pred, path):
     return find
 
 
+def returned():
+    """the local the function returns by name"""
+    def find(c: Canon):
+        for n in ast.walk(c.fnode):
+            if isinstance(n, ast.Return) and isinstance(n.value, ast.Name) and c.is_local(n.value.id):
+                return n.value.id
+        return None
+    return find
+
+
 def custom(fn):
     """fn(canon, fnode) -> local name or None"""
     def find(c: Canon):
